@@ -270,3 +270,31 @@ def initial_value_text_exact(prog):
         if where not in best or (own and not best[where][4]):
             best[where] = (f_raw, where, ok, why, own)
     return [v[:4] for k, v in sorted(best.items())]
+
+
+def addterm_private_copy(prog):
+    """Equation.AddTerm: the object appended to the term list is, on every path to the append, a name bound to
+    Term(<the parameter>) / a copy of it - never the caller's own object.  -> (funcinfo, ok)"""
+    from ..dataflow import target_names
+    E = prog.classes.get('Equation')
+    at = E.methods.get('AddTerm') if E else None
+    if at is None:
+        raise AnalysisError('Equation.AddTerm not found')
+    ga = cfgmod.build(at)
+    tp = at.params()[1]
+    uses = []
+    for n in ga.stmt_nodes():
+        if n.kind == 'stmt':
+            for c in ast.walk(n.ast):
+                if isinstance(c, ast.Call) and call_name(c) == 'append' and c.args and isinstance(c.args[0], ast.Name) and \
+                        isinstance(c.func, ast.Attribute) and 'TermList' in unparse(c.func.value):
+                    uses.append((n, c.args[0].id))
+    ok = bool(uses)
+    for u, nm in uses:
+        copies = [n for n in ga.stmt_nodes() if n.kind == 'stmt' and isinstance(n.ast, ast.Assign) and isinstance(n.ast.targets[0], ast.Name)
+                  and n.ast.targets[0].id == nm and isinstance(n.ast.value, ast.Call) and call_name(n.ast.value) in ('Term', 'copy', 'deepcopy')
+                  and n.ast.value.args and unparse(n.ast.value.args[0]) == tp]
+        others = [n for n in ga.stmt_nodes() if n.kind == 'stmt' and isinstance(n.ast, ast.Assign) and
+                  nm in target_names(n.ast.targets[0]) and n not in copies]
+        ok = ok and bool(copies) and not others and ga.must_pass(ga.entry, u, copies)
+    return at, ok
